@@ -20,6 +20,63 @@ CLAIMED = {
         "adversarial phase and healed in the fair phase.",
         "DESIGN.md 7 C01",
     ),
+    "C06": (
+        "exploration",
+        "deterministic simulation: seeded schedules with tiny peer limits; independent wire decoder judges every "
+        "STREAM/RESET_STREAM frame against limits delivered so far",
+        "Seeded search over configurations biased to tiny flow-control windows and stream-count limits, scripts that "
+        "write more than the limits, and lossy schedules; every frame that spends credit is decoded from the wire by "
+        "an independent RFC 9000/9001 stack and judged against the limits delivered to the sender so far (credit "
+        "at delivery, so the oracle is never stricter than a correct sender); blocked data must flow once limits rise.",
+        "Trusted: wire/ decoder, cryptography. Stream-count limits below 128 are produced by setting the receiving "
+        "side's limit objects after construction. Runs with a window of 0 are safety-only.",
+        "DESIGN.md 7 C06",
+    ),
+    "C08": (
+        "exploration",
+        "deterministic simulation: (a) seeded histories against real QuicPacketRecovery with a recomputed ledger, "
+        "(b) wire in-flight bytes per transmit vs. congestion window under seeded lossy schedules",
+        "(a) real QuicPacketRecovery + Reno/CUBIC driven by seeded histories of send / ack(arbitrary range sets) / "
+        "loss timer / PTO / discard at arbitrary times, ledger recomputed from sent_packets after every call; "
+        "(b) two real endpoints on the simulated network, in-flight bytes decoded from the wire per "
+        "datagrams_to_send() call compared with congestion_window - bytes_in_flight read before the call.",
+        "Trusted: wire/ decoder; the probe allowance is one datagram per handle_timer call (superset of PTO firing).",
+        "DESIGN.md 7 C08",
+    ),
+    "C10": (
+        "exploration",
+        "deterministic simulation of frame-level loss/duplication/reordering as direct operation sequences against "
+        "small executable reference models, seeded walks with state-coverage measurement",
+        "Real QuicStreamReceiver / QuicStreamSender driven by seeded operation sequences (the operations are what "
+        "loss, duplication, reordering and retransmission do at frame level) against independent reference models, "
+        "compared after every operation; short streams walked deeply with distinct implementation states counted next "
+        "to the model's reachable state count; closure is not claimed.",
+        "Trusted: the reference models (dict offset->byte etc.). Two documented relaxations in the module's "
+        "ASSUMPTIONS (end marker after a shrinking FIN; is_finished after reset + late acks).",
+        "DESIGN.md 7 C10",
+    ),
+    "C12": (
+        "exploration",
+        "deterministic simulation: seeded arrival orders/gaps/duplicates/losses; independent wire decoder compares "
+        "every ACK frame with the simulator's delivery record and timing",
+        "Every ACK frame decoded from the wire is checked against the set of genuine packets delivered to that "
+        "endpoint in that space (soundness, all fault kinds); timeliness (25 ms advertised max_ack_delay for 1-RTT, "
+        "next transmission for Initial/Handshake) is judged in runs with timers on time.",
+        "Trusted: wire/ decoder. Timeliness is only judged for packets the endpoint certainly could authenticate "
+        "(keys present in its secrets log at delivery; no key updates, rebinding or CID changes in those runs).",
+        "DESIGN.md 7 C12",
+    ),
+    "C13": (
+        "exploration",
+        "deterministic simulation: seeded handshake/migration schedules with spoofed sources and rebinding; every "
+        "emitted datagram judged for size, Initial padding and 3x anti-amplification per address",
+        "Every datagram handed out is judged: size <= max_datagram_size, >= 1200 bytes when it carries a client "
+        "Initial or an ack-eliciting server Initial, and per destination address bytes sent <= 3x bytes delivered "
+        "until the (deliberately early) oracle notion of address validation holds.",
+        "Trusted: wire/ decoder. Two genuine defects are recorded as known findings (Initial padding cut to the "
+        "amplification / flight budget).",
+        "DESIGN.md 7 C13",
+    ),
 }
 
 NOT_APPLICABLE = {
